@@ -63,6 +63,24 @@ def run(ck):
             ops = ["i" + b"src\xff".hex(), "i" + "src\ufffd".encode().hex(), "i" + b"src\xff".hex(), "i" + b"\xfe\xfe/a\x80".hex(),
                    "i" + "\ufffd\ufffd/a\ufffd".encode().hex(), "i" + b"src\xff".hex()] + extra
             cases.append("intern\t%s\t%s" % (kind, ",".join(ops)))
+    # distinct texts that collide under the 64-bit FxHash the interner's table uses (with and without the length prefix
+    # that hashing a slice adds): equal hashes must not be taken for equal texts
+    K, M = 0x517cc1b727220a95, (1 << 64) - 1
+    rotl5 = lambda x: ((x << 5) | (x >> 59)) & M
+    def fx_pair(h0, a0, a1, b0):
+        step = lambda h, w: ((rotl5(h) ^ w) * K) & M
+        b1 = rotl5(step(h0, b0)) ^ rotl5(step(h0, a0)) ^ a1
+        return (a0.to_bytes(8, "little") + a1.to_bytes(8, "little"), b0.to_bytes(8, "little") + b1.to_bytes(8, "little"))
+    coll = [(b"tileDataOverflow", b"drLmw4O9Ah3NXv9o")]
+    for h0 in (0, (16 * K) & M):
+        for k in range(3):
+            a0, a1, b0 = (int.from_bytes(bytes(rng.randrange(97, 123) for _ in range(8)), "little") for _ in range(3))
+            coll.append(fx_pair(h0, a0, a1, b0))
+    for x, y in coll:
+        for kind in (("str", "bytes", "path") if all(c < 128 for c in x + y) else ("bytes", "path")):
+            if kind == "path" and (b"\0" in x + y):
+                continue
+            cases.append("intern\t%s\ti%s,i%s,i%s,g5:7,i%s" % (kind, x.hex(), y.hex(), x.hex(), y.hex()))
     # a few very long / very large ones
     big = []
     for _ in range(6 if thorough else 2):
@@ -152,12 +170,14 @@ def run(ck):
         return b"/" + b"/".join(out)
     ADIRS = [b"/w", b"/w/a", b"/w/b", b"/w/a/sub", b"/", b"/w/lib"]
     APATHS = [b"x.asm", b"./x.asm", b"sub/y.inc", b"../b/x.asm", b".", b"..", b"a/x.asm", b"y.asm", b"../x.asm", b"x\xff.asm",
-              b"/w/a/x.asm", b"/w/b/x.asm", b"/w/a/../b/x.asm", b"/z", b"/w/lib/x.asm", b"/w/lib/y.asm", b"/w/./a/./x.asm"]
+              b"/w/a/x.asm", b"/w/b/x.asm", b"/w/a/../b/x.asm", b"/z", b"/w/lib/x.asm", b"/w/lib/y.asm", b"/w/./a/./x.asm",
+              # doubled and trailing separators name the same file or directory
+              b"/w//a/x.asm", b"/w/a//x.asm", b"/w/a/", b"/w/a", b"/w/lib/", b"//w/lib/x.asm", b"sub//y.inc", b"a//x.asm", b"a/"]
     acases, awant = [], []
     import itertools as _it
     hist = []
     # every three-step history over a small core (relative in A, absolute seen from B, the same relative in B, ...)
-    core_d, core_p = ADIRS[:3] + [b"/w/lib"], [b"x.asm", b"y.asm", b".", b"/w/lib/x.asm", b"/w/a/x.asm", b"../b/x.asm"]
+    core_d, core_p = ADIRS[:3] + [b"/w/lib"], [b"x.asm", b"y.asm", b".", b"/w/lib/x.asm", b"/w/a/x.asm", b"../b/x.asm", b"/w//a/x.asm", b"/w/a/"]
     steps = [(d, p) for d in core_d for p in core_p]
     for h in _it.product(range(len(steps)), repeat=3):
         if thorough or rng.random() < 0.12:
